@@ -372,7 +372,7 @@ func SetSharedSites(l []string) {
 }
 
 func sitePC() uintptr {
-	var pcs [10]uintptr
+	var pcs [6]uintptr
 	n := runtime.Callers(3, pcs[:])
 	for i := 0; i < n; i++ {
 		pc := pcs[i]
